@@ -179,6 +179,85 @@ func zzProcAlive() bool {
 			}
 		}
 	}
+	// writes issued after the rename (through a descriptor that followed the file): the general
+	// emulation - replay the effect list on virtual files up to the cut
+	lateWrite := false
+	seenRename := false
+	for _, e := range mine {
+		if e.Kind == "rename" {
+			seenRename = true
+		}
+		if e.Kind == "write" && seenRename {
+			lateWrite = true
+		}
+	}
+	if lateWrite {
+		var written [][]byte
+		for b := finalLog; len(b) > 0; {
+			i := strings.IndexByte(string(b), '\n')
+			if i < 0 {
+				written = append(written, b)
+				break
+			}
+			written = append(written, b[:i+1])
+			b = b[i+1:]
+		}
+		logC, tmpC := append([]byte(nil), zzFS.snapLog...), append([]byte(nil), zzFS.snapTmp...)
+		logOK, tmpOK := true, zzFS.tmpExist
+		wi := 0
+		moved := false // the descriptor's file now carries the log's name
+		for _, e := range mine {
+			if e.I > die || (e.I == die && !(e.Kind == "write" && (torn || tornAll))) {
+				break
+			}
+			switch e.Kind {
+			case "create":
+				if isTmp(e) && !tmpOK {
+					tmpOK, tmpC = true, nil
+				}
+			case "truncate":
+				if isTmp(e) {
+					tmpC = nil
+				} else {
+					logC = nil
+				}
+			case "rename":
+				logC, logOK, tmpC, tmpOK, moved = tmpC, true, nil, false, true
+			case "remove":
+				if isTmp(e) {
+					tmpOK, tmpC = false, nil
+				} else {
+					logOK, logC = false, nil
+				}
+			case "write":
+				if wi < len(written) {
+					ln := written[wi]
+					if e.I == die && torn {
+						ln = ln[:len(ln)/2]
+					} else if e.I == die && tornAll {
+						ln = ln[:len(ln)-1]
+					}
+					if moved || !isTmp(e) {
+						logC = append(logC, ln...)
+					} else {
+						tmpC = append(tmpC, ln...)
+					}
+				}
+				wi++
+			}
+		}
+		if logOK {
+			os.WriteFile(zzLogPath(), logC, 0644)
+		} else {
+			os.Remove(zzLogPath())
+		}
+		if tmpOK {
+			os.WriteFile(zzLogPath()+".tmp", tmpC, 0644)
+		} else {
+			os.Remove(zzLogPath() + ".tmp")
+		}
+		return false
+	}
 	for _, e := range mine {
 		// an unlink of the log that happened before the cut, with the rename after it
 		if e.Kind == "remove" && !isTmp(e) && e.I < die && !renamed {
